@@ -10,8 +10,8 @@ import (
 	"path/filepath"
 	"strconv"
 	"strings"
-	"time"
 	"testing"
+	"time"
 
 	rapp "github.com/Dash-Industry-Forum/livesim2/cmd/cmaf-ingest-receiver/app"
 
